@@ -116,6 +116,11 @@ class CsrMachine(Machine):
         self.probes: dict[str, int] = {}
         self.faults: dict[str, int] = {}
         self.polls = 0
+        self.rocc_state: dict[int, tuple] = {}  # funct7 -> operand pair last issued
+        self.in_rocc_launch = False
+        self.rocc_group: set[int] = set()
+        self.rocc_launch_f7 = {a for d in decls if d.rocc for a in d.launch.values()}
+        self.rocc_name = next((d.name for d in decls if d.rocc), None)
 
     def probe(self, name, n=1):
         self.probes[name] = self.probes.get(name, 0) + n
@@ -124,6 +129,7 @@ class CsrMachine(Machine):
         self.faults[name] = self.faults.get(name, 0) + n
 
     def close_launch(self, dev: CsrDevice | None = None):
+        self.in_rocc_launch = False
         for d in self.devs:
             if d.in_launch and d is not dev:
                 d.in_launch = False
@@ -242,8 +248,19 @@ def _asm(m: CsrMachine, op, vals, core):
         mm = _INSN.match(s)
         if not mm:
             raise HarnessError(f"inline asm not modelled: {s}")
-        m.close_launch()
-        m.hist.append(("insn", int(mm.group(2)), ops[0], ops[1]))
+        f7 = int(mm.group(2))
+        if f7 in m.rocc_launch_f7:
+            # one launch = one instruction per launch funct7; a repeated funct7 starts the next launch
+            if not m.in_rocc_launch or f7 in m.rocc_group:
+                m.close_launch()
+                m.in_rocc_launch = True
+                m.rocc_group = set()
+                m.hist.append(("rlaunch", m.rocc_name, dict(m.rocc_state)))
+            m.rocc_group.add(f7)
+        else:
+            m.close_launch()
+            m.rocc_state[f7] = (ops[0], ops[1])
+        m.hist.append(("insn", f7, ops[0], ops[1]))
 
 
 def _call(m: CsrMachine, op, vals, core):
@@ -271,6 +288,24 @@ def _testop(m: CsrMachine, op, vals, core):
 # ------------------------------------------------------------------ history normalisation
 
 
+ANY = ("any",)
+
+
+def _insn_match(ref_list, sub_list):
+    """Multiset match of RoCC instruction events where a reference operand may be ANY."""
+    sub = list(sub_list)
+    for r in sorted(ref_list, key=lambda e: (e[2] == ANY) + (e[3] == ANY)):
+        for j, s_ in enumerate(sub):
+            if s_[1] == r[1] and (r[2] == ANY or r[2] == s_[2]) and (r[3] == ANY or r[3] == s_[3]):
+                del sub[j]
+                break
+        else:
+            return f"missing {r!r}; unmatched in lowered program: {sub[:3]!r}"
+    if sub:
+        return f"unexpected {sub[:3]!r}"
+    return None
+
+
 def norm_val(v, bits):
     return v & ((1 << bits) - 1) if isinstance(v, int) else v
 
@@ -283,13 +318,16 @@ def normalise_reference(hist, decls: dict[str, AccDecl]):
         if k == "setup":
             d = decls[e[1]]
             if d.rocc:
-                regs = e[3]
+                regs, known = e[3], e[4]
                 names = []
                 for n, _ in e[2]:
                     if n[:-4] not in names:
                         names.append(n[:-4])
                 for nm in names:
-                    out.append(("insn", d.fields[nm + ".rs1"], norm_val(regs[nm + ".rs1"], 64), norm_val(regs[nm + ".rs2"], 64)))
+                    # an operand the compiler cannot know (never written since the accelerator was last
+                    # possibly reconfigured behind its back) is not judged: ANY
+                    pair = [norm_val(regs[nm + s_], 64) if (nm + s_) in known else ANY for s_ in (".rs1", ".rs2")]
+                    out.append(("insn", d.fields[nm + ".rs1"], pair[0], pair[1]))
             else:
                 for n, v in e[2]:
                     out.append(("w", e[1], n, norm_val(v, 32)))
@@ -301,6 +339,7 @@ def normalise_reference(hist, decls: dict[str, AccDecl]):
                 for n in lv:
                     if n[:-4] not in names:
                         names.append(n[:-4])
+                out.append(("rlaunch", e[1], {f: norm_val(e[3][f], 64) for f in e[5]}))
                 for nm in names:
                     out.append(("insn", d.launch[nm + ".rs1"], norm_val(lv[nm + ".rs1"], 64), norm_val(lv[nm + ".rs2"], 64)))
             else:
@@ -324,6 +363,8 @@ def normalise_subject(hist, decls: dict[str, AccDecl]):
             out.append((k, e[1], e[2], norm_val(e[3], 32)))
         elif k == "insn":
             out.append(("insn", e[1], norm_val(e[2], 64), norm_val(e[3], 64)))
+        elif k == "rlaunch":
+            out.append(("rlaunch", e[1], {f7: (norm_val(p[0], 64), norm_val(p[1], 64)) for f7, p in e[2].items()}))
         elif k == "clear":
             continue
         else:
@@ -359,7 +400,18 @@ def compare_csr(ref_events, sub_events, decls: dict[str, AccDecl]) -> str | None
     for k, (x, y) in enumerate(zip(a, b)):
         if x[0] != y[0]:
             return f"segment {k}: reference has {x[0]} {str(x[1])[:120]}, lowered program has {y[0]} {str(y[1])[:120]}"
-        if x[0] in ("w", "lw", "insn"):
+        if x[0] == "insn":
+            d_ = _insn_match(x[1], y[1])
+            if d_:
+                return f"segment {k} (insn): {d_}"
+        elif x[0] == "rlaunch":
+            d = decls[x[1]]
+            for f, v in x[2].items():
+                pair = y[2].get(d.fields[f])
+                got = norm_val(pair[0 if f.endswith(".rs1") else 1], 64) if pair else ("never-issued", f)
+                if got != v:
+                    return f"segment {k}: at launch of {x[1]} the value in effect for {f} is {got!r}, the configured value is {v!r}"
+        elif x[0] in ("w", "lw"):
             if x[1] != y[1]:
                 miss = [e for e in x[1] if e not in y[1]]
                 extra = [e for e in y[1] if e not in x[1]]
